@@ -303,6 +303,14 @@ func (u *skUT) apply(op kop) string {
 		if oc.anyCollapsing() {
 			u.lossy = true
 		}
+		// the argument lives on: whatever happens to it afterwards must not reach the receiver
+		_ = arg.AddWithCount(u.safeV, 3)
+		_ = arg.Add(-u.safeV)
+		if !arg.IsEmpty() {
+			_ = arg.Reweight(2)
+		}
+		arg.Clear()
+		_ = arg.Add(u.safeV)
 		u.cl.labelIf(ak.total() == 0, "empty-argument")
 		u.cl.labelIf(oc.pos.Name != u.cfg.pos.Name || oc.neg.Name != u.cfg.neg.Name, "mixed-store-kinds")
 		u.cl.labelIf(oc.pos.Name == u.cfg.pos.Name && (oc.pos.Name == "dense" || oc.pos.Name == "paginated"), "same-kind-fast-path")
